@@ -22,6 +22,11 @@ CHECKS = {
             "The Core pin simulation is driven by generated interleavings over int/str/analogue pin names and compared with a dictionary model after every step (read-your-writes on every touched pin = non-interference); Utils.map is compared with exact Fractions; sleep, sensors and SerialMonitor are compared with the behaviour the statement spells out using recorders and fake back ends.",
             "pyserial replaced by a fake backend; analog_write arguments finite; first-sample-pressed button edge accepted either way.",
             "DESIGN.md 3/C20"),
+    "C12": ("fault_enumeration",
+            "exhaustive enumeration of configuration x single-fault points plus Hypothesis-drawn double faults, against a reference model of target() written from the statement, under a recording harness",
+            "All 2700 combinations of script x (platform, board) class x upload x PlatformIO state x fault point are executed against the real target() with subprocess/tempfile/__main__/pathlib replaced by recording fakes that honour check= like subprocess; the reference model decides the expected exception, the recorded tool invocations (order, cwd), the written files (main.cpp bytes, platformio.ini read back with configparser) and the absence of effects.",
+            "pio itself is never executed; file-system access is assumed to go through pathlib/tempfile (faults that are never reached are counted, not judged).",
+            "DESIGN.md 3/C12"),
 }
 
 PENDING = {}
